@@ -95,6 +95,7 @@ func LoadWorld(repo, specDir string, dirs []string, extraEnv []string) (*World, 
 		cfiles := []string{filepath.Join(abs, "contracts_verif.go")}
 		extra, _ := filepath.Glob(filepath.Join(specDir, pkgName, "*.contracts"))
 		cfiles = append(cfiles, extra...)
+		cfiles = append(cfiles, filepath.Join(specDir, "common.contracts"))
 		var gen strings.Builder
 		fmt.Fprintf(&gen, "package %s\n\n", pkgName)
 		for _, cf := range cfiles {
